@@ -138,6 +138,11 @@ def setitem_invalidation(ctx, keys=None, why=""):
             # `if <differ-predicate>(stored, new): reset()`
             for pol, lab in ((True, "false"), (False, "true")):
                 for a in atoms(n.ast, pol):
+                    if a.pol and isinstance(a.node, ast.Name):
+                        # the predicate's value held in a local
+                        v0_ = Rs.single(a.node.id)
+                        if isinstance(v0_, ast.Call):
+                            a = type(a)(v0_, a.pol, a.origin)
                     if not a.pol or not isinstance(a.node, ast.Call):
                         continue
                     ok, missing = _differ_call(a.node, fitm, valv)
